@@ -3,11 +3,14 @@ import ShellOp.Model.Startup
 /-! Line-protocol suite for C06 (startup order). Core-only.
 
 ```
-hook <id> v=<0|1> os=<ORDER|-> sched=<0|1> fails=<0101|-> kube=<name:group:execSync,…|->     -> ok
+hook <id> v=<0|1> os=<ORDER|-> sched=<0|1> fails=<0101|-> kube=<name:group:execSync,…|-> [kfail=<pos,pos,…|->]    -> ok
+       (kfail: the fault sequence of the hook's EnableKubernetesBindings task — position of the binding whose
+        monitor cannot be created in the 1st, 2nd, … attempt)
 order                      -> ids of GetHooksInOrder(OnStartup)
 oracle order got=<ids>
 bootstrap                  -> S<id> (onStartup HookRun) K<id> (EnableKubernetesBindings) C<id> (EnableScheduleBindings) …
 oracle bootstrap got=<…>
+enablefaults               -> hook:position of every failed EnableKubernetesBindings attempt, in order
 run                        -> the startup executions hook/exit/ctx+ctx;…   (ctx: o | s<binding> | g<group>)
 oracle log <every execution of the run, also e<binding> (Event) and c (Schedule) contexts>
 oracle queues <the same log> <hook/binding/queue triples with a hook run, from the hook_run_seconds labels>
@@ -44,7 +47,11 @@ def parseHook (toks : List String) : Option (Hook × List Bool × List (Nat × N
     let os ← if os == "-" then some none else (int? os).map some
     let kube ← (strList kube).mapM parseBinding
     let fl := if fails == "-" then [] else fails.toList.map (· == '1')
-    some ({ name := id, v1 := v == "1", onStartup := os, kube := kube.map (·.1), sched := sched == "1" }, fl,
+    let kf ← match kv? "kfail" rest with
+      | some s => natList? s
+      | none => some []
+    -- a v0 configuration has neither groups nor the flag: the model gets what the converter produces
+    some (convertV0 { name := id, v1 := v == "1", onStartup := os, kube := kube.map (·.1), sched := sched == "1", kfail := kf }, fl,
       kube.map (fun p => (id, p.1.name, p.2)))
   | _ => none
 
@@ -61,6 +68,11 @@ def showTask (t : Task) : String :=
 def showLog (l : List Ev) : String :=
   String.join (l.filterMap fun
     | .exec h f cs => some (s!"{h}/{if f then 1 else 0}/" ++ String.intercalate "+" (cs.map showCtx) ++ ";")
+    | _ => none)
+
+def showEnableFaults (l : List Ev) : String :=
+  showStrs (l.filterMap fun
+    | .enableKubeFail h k => some s!"{h}:{k}"
     | _ => none)
 
 /-! ### The property on an observation (spec level; nothing below uses the model's functions) -/
@@ -155,14 +167,18 @@ def checkLog (hooks : List Hook) (log : List OExec) : Option String := Id.run do
   for h in hooks do
     let mine := log.filter (·.hook == h.name)
     for b in h.kube do
-      if b.group == 0 then
-        let deliverable := h.v1 && b.execSync
-        let ok := countIf (fun e => !e.failed && e.ctxs.contains (.s b.name)) mine
-        let any := countIf (fun e => e.ctxs.contains (.s b.name)) mine
-        if deliverable && ok != 1 then
-          return some s!"hook {h.name} binding {b.name}: Synchronization delivered successfully {ok} times, want 1"
-        if !deliverable && any != 0 then
-          return some s!"hook {h.name} binding {b.name}: Synchronization delivered although it must be skipped"
+      -- an ungrouped binding of a v1 hook with the flag true: exactly once; every other binding (flag false,
+      -- v0 hook, or grouped: its delivery is the Group context) never gets a Synchronization context
+      let deliverable := h.v1 && b.execSync && b.group == 0
+      let ok := countIf (fun e => !e.failed && e.ctxs.contains (.s b.name)) mine
+      let any := countIf (fun e => e.ctxs.contains (.s b.name)) mine
+      if deliverable && ok != 1 then
+        return some s!"hook {h.name} binding {b.name}: Synchronization delivered successfully {ok} times, want 1"
+      if !deliverable && any != 0 then
+        return some (if !h.v1 then s!"hook {h.name} binding {b.name}: Synchronization delivered to a v0 hook"
+          else s!"hook {h.name} binding {b.name}: Synchronization delivered although it must be skipped")
+    if !h.v1 && mine.any (fun e => e.ctxs.any fun | .g _ => true | _ => false) then
+      return some s!"hook {h.name}: Group context delivered to a v0 hook"
     for g in (h.kube.map (·.group)).eraseDups do
       if g != 0 then
         let want := if h.v1 then groupRuns g h.kube false else 0
@@ -225,6 +241,9 @@ def step (st : St) (toks : List String) : St × String :=
     | none => (st, "bad-op")
   | ["order"] => (st, showNats ((getHooksInOrder st.hooks).map (·.name)))
   | ["bootstrap"] => (st, showStrs ((bootstrap st.hooks).map showTask))
+  | ["enablefaults"] =>
+    let s := run st.hooks (failsFn st.fails)
+    if s.queue.isEmpty then (st, showEnableFaults s.log) else (st, "model-out-of-fuel")
   | ["run"] =>
     let s := run st.hooks (failsFn st.fails)
     if s.queue.isEmpty then (st, "log=" ++ (if (showLog s.log).isEmpty then ";" else showLog s.log)) else (st, "model-out-of-fuel")
